@@ -31,11 +31,12 @@ import (
 )
 
 const c28Page = 65536
+const c28Chunk = 512 // granularity of the sparse backing store
 
 type c28Mem struct {
 	pages uint32
 	max   uint32
-	data  map[uint32]*[c28Page]byte
+	data  map[uint32]*[c28Chunk]byte
 }
 
 func (m *c28Mem) Size() uint64 { return uint64(m.pages) * c28Page }
@@ -48,19 +49,19 @@ func (m *c28Mem) Grow(delta uint32) (uint32, bool) {
 	return prev, true
 }
 func (m *c28Mem) get(a uint64) byte {
-	pg := m.data[uint32(a/c28Page)]
+	pg := m.data[uint32(a/c28Chunk)]
 	if pg == nil {
 		return 0
 	}
-	return pg[a%c28Page]
+	return pg[a%c28Chunk]
 }
 func (m *c28Mem) put(a uint64, v byte) {
-	pg := m.data[uint32(a/c28Page)]
+	pg := m.data[uint32(a/c28Chunk)]
 	if pg == nil {
-		pg = new([c28Page]byte)
-		m.data[uint32(a/c28Page)] = pg
+		pg = new([c28Chunk]byte)
+		m.data[uint32(a/c28Chunk)] = pg
 	}
-	pg[a%c28Page] = v
+	pg[a%c28Chunk] = v
 }
 func (m *c28Mem) ReadByte(off uint32) (byte, bool) { //nolint:govet
 	if uint64(off)+1 > m.Size() {
@@ -165,7 +166,7 @@ func c28Run(in string) string {
 		return "err:badinput"
 	}
 	hb := uint32(vu.UnX(f[1]))
-	mem := &c28Mem{pages: uint32(vu.UnX(f[2])), max: uint32(vu.UnX(f[3])), data: map[uint32]*[c28Page]byte{}}
+	mem := &c28Mem{pages: uint32(vu.UnX(f[2])), max: uint32(vu.UnX(f[3])), data: map[uint32]*[c28Chunk]byte{}}
 	heap := allocator.NewFreeingBumpHeapAllocator(hb)
 	ops := f[4:]
 	ptrs := make([]uint32, len(ops))
